@@ -84,4 +84,24 @@ theorem code_Checksum (s : Manufacturer) : sysex.Manufacturer.Checksum (toGo s) 
   unfold checksum summed body toGo
   cases s.req <;> rfl
 
+/-- `Manufacturer.SysEx()` of the working tree = the model's `build`, for every value -/
+theorem code_SysEx (s : Manufacturer) : sysex.Manufacturer.SysEx (toGo s) = .ok (build s) := by
+  unfold sysex.Manufacturer.SysEx
+  have hck := code_Checksum s
+  have e0 : Go.idx (toGo s).Address 0 = .ok s.a0 := rfl
+  have e1 : Go.idx (toGo s).Address 1 = .ok s.a1 := rfl
+  have e2 : Go.idx (toGo s).Address 2 = .ok s.a2 := rfl
+  have f0 : Go.idx (toGo s).NumReqBytes 0 = .ok s.n0 := rfl
+  have f1 : Go.idx (toGo s).NumReqBytes 1 = .ok s.n1 := rfl
+  have f2 : Go.idx (toGo s).NumReqBytes 2 = .ok s.n2 := rfl
+  have okb : ∀ {α β : Type} (x : α) (f : α → Except String β), (Except.ok x >>= f) = f x := fun _ _ => rfl
+  have hr : (toGo s).InfoRequest = s.req := rfl
+  have hd : (toGo s).SendingData = s.data := rfl
+  have h1 : (toGo s).ManufacturerID = s.manu := rfl
+  have h2 : (toGo s).DeviceID = s.dev := rfl
+  have h3 : (toGo s).ModelID = s.model := rfl
+  simp only [e0, e1, e2, f0, f1, f2, okb, hck, hr, hd, h1, h2, h3]
+  unfold build body
+  cases hreq : s.req <;> simp [okb, hck] <;> rfl
+
 end Midi.C18
